@@ -243,7 +243,7 @@ def native_replay(specs, timeout=600):
             json.dump({'Replace': repl}, open(ov, 'w'))
             env = dict(GOENV)
             env['VERIF_REPLAY'] = ','.join('%s=%s' % (h.rsplit('.', 1)[-1], p) for h, p in items)
-            r = subprocess.run(['go', 'test', '-vet=off', '-count=1', '-run', '^TestVerifReplay$', '-overlay', ov, '-timeout', '%ds' % timeout,
+            r = subprocess.run(['go', 'test', '-vet=off', '-count=1', '-v', '-run', '^TestVerifReplay$', '-overlay', ov, '-timeout', '%ds' % timeout,
                                 './' + rel if rel != '.' else '.'], cwd=REPO, env=env, capture_output=True, text=True, timeout=timeout + 60)
             out = r.stdout + r.stderr
             for h, p in items:
